@@ -770,6 +770,13 @@ func ruleG1(c *Ctx, only string, floor int) {
 				facts = append(facts, fmt.Sprintf("constant slot %s[%d]", ac.root, k))
 				continue
 			}
+			// an index computed from constants alone (for j := 0; j < 256; j++) is the same for every instance of a
+			// worker that runs more than once: the instances write the same elements
+			if oc.own(ac.firstIdx) && !oc.perInstance(ac.firstIdx) && !perInstanceView(oc, w.addr) && multiInstance(s.kind, s.parent, s.at) {
+				bad = true
+				c.Bad("G1", key, w.at.Pos(), fmt.Sprintf("goroutine writes shared %s at an index (%s) that runs over the same constant range in every worker (%s at %s): the workers write the same elements", ac.root, ac.firstIdx.Name(), w.how, c.P.Pos(w.at.Pos())))
+				continue
+			}
 			if !oc.own(ac.firstIdx) {
 				bad = true
 				c.Bad("G1", key, w.at.Pos(), fmt.Sprintf("goroutine writes shared %s at an index (%s) that does not derive only from its own parameters or a per-iteration cell (%s at %s): two goroutines may write the same element", ac.root, ac.firstIdx.Name(), w.how, c.P.Pos(w.at.Pos())))
@@ -1076,4 +1083,113 @@ func RuleG6(c *Ctx) {
 		}
 	}
 	c.FloorN("G6", 4, n, "sync.Pool Get sites")
+}
+
+// perInstance: the value depends on something each instance of the worker has for itself (a scalar parameter, a
+// per-iteration cell of the spawning loop) — as opposed to constants and lengths only.
+func (o *ownCtx) perInstance(v ssa.Value) bool {
+	seen := map[ssa.Value]bool{}
+	var walk func(v ssa.Value) bool
+	walk = func(v ssa.Value) bool {
+		if seen[v] {
+			return false
+		}
+		seen[v] = true
+		switch x := v.(type) {
+		case *ssa.Parameter:
+			return !pointerful(x.Type())
+		case *ssa.Phi:
+			for _, e := range x.Edges {
+				if walk(e) {
+					return true
+				}
+			}
+		case *ssa.BinOp:
+			return walk(x.X) || walk(x.Y)
+		case *ssa.Convert:
+			return walk(x.X)
+		case *ssa.ChangeType:
+			return walk(x.X)
+		case *ssa.UnOp:
+			if x.Op == token.MUL {
+				switch a := x.X.(type) {
+				case *ssa.Alloc:
+					if p := core.ParamSpill(a); p != nil && !pointerful(p.Type()) {
+						return true
+					}
+					for _, st := range storesInto(a) {
+						if walk(st.Val) {
+							return true
+						}
+					}
+					return false
+				case *ssa.FreeVar:
+					return o.perIterationCell(a)
+				}
+				return false
+			}
+			return walk(x.X)
+		}
+		return false
+	}
+	return walk(v)
+}
+
+// multiInstance: the spawned function may run more than once concurrently: an Execute callback, or a go statement
+// inside a loop of its parent.
+func multiInstance(kind string, parent *ssa.Function, at ssa.Instruction) bool {
+	if kind != "go" {
+		return true
+	}
+	if parent == nil || at == nil || at.Block() == nil {
+		return true
+	}
+	for _, l := range core.Loops(parent) {
+		if l.Blocks[at.Block()] {
+			return true
+		}
+	}
+	return false
+}
+
+// perInstanceView: the element written lies in a view base[lo:...] whose lower bound is a per-instance value (the
+// worker's own window of the shared slice, then indexed from 0).
+func perInstanceView(o *ownCtx, addr ssa.Value) bool {
+	v := addr
+	for d := 0; d < 8; d++ {
+		switch x := v.(type) {
+		case *ssa.FieldAddr:
+			v = x.X
+		case *ssa.IndexAddr:
+			base := x.X
+			for k := 0; k < 4; k++ {
+				sl, isSl := base.(*ssa.Slice)
+				if !isSl {
+					// a local holding the view: single definition
+					if ld, isLd := base.(*ssa.UnOp); isLd && ld.Op == token.MUL {
+						if cell, isCell := ld.X.(*ssa.Alloc); isCell {
+							if sts := storesInto(cell); len(sts) == 1 {
+								base = sts[0].Val
+								continue
+							}
+						}
+					}
+					break
+				}
+				if sl.Low != nil && o.own(sl.Low) && o.perInstance(sl.Low) {
+					return true
+				}
+				base = sl.X
+			}
+			v = x.X
+		case *ssa.UnOp:
+			if x.Op != token.MUL {
+				return false
+			}
+			v = x.X
+		default:
+			return false
+		}
+	}
+	return false
 }
